@@ -236,6 +236,7 @@ struct Endpoint {
     bool out_pending = false;
     size_t out_piece = (size_t) -1;   // default piece size for partial sends
     bool defer_pump = false;          // do not drain inside receive processing (output accumulates in the library)
+    bool use_readbuf_of_size = false; // TLS: ask for a read buffer as large as the data at hand instead of taking what matrixSslGetReadbuf offers
     void pump_out(size_t max_piece = 0) {
         if (!ssl) return;
         if (max_piece == 0) max_piece = out_piece;
@@ -282,6 +283,10 @@ struct Endpoint {
         unsigned char *buf = nullptr; sel();
         int32 room = matrixSslGetReadbuf(ssl, &buf);
         if (room <= 0 || !buf) { events.push_back({ EV_ERROR, room, 2 }); failed = true; last_rc = room < 0 ? room : PS_FAILURE; return last_rc; }
+        if (!dtls && use_readbuf_of_size && (size_t) room < k) {   // the application asks for room for everything it has read (matrixSslGetReadbufOfSize)
+            sel(); int32 r2 = matrixSslGetReadbufOfSize(ssl, (int32) std::min(k, (size_t) SSL_MAX_BUF_SIZE), &buf);
+            if (r2 > 0 && buf) room = r2; else { events.push_back({ EV_ERROR, r2, 2 }); failed = true; last_rc = r2 < 0 ? r2 : PS_FAILURE; return last_rc; }
+        }
         if (dtls && (size_t) room < k) {
             sel(); room = matrixSslGetReadbufOfSize(ssl, (int32) k, &buf);
             if (room < (int32) k) { *consumed = k; return MATRIXSSL_REQUEST_RECV; } // datagram does not fit: dropped (legal for a datagram transport)
